@@ -211,7 +211,7 @@ CHECKS["C02"] = {
     "harnesses": [
         {"name": "converge", "pkg": "internal/state", "pkgname": "state", "entry": "VerifC02Converge",
          "files": ["zz_verif_c02.go", "zz_verif_fixture.go", "zz_verif_world.go"], "with": ["verifdb"], "gen_stubs": [TX_STUB],
-         "params": {"quick": grid(fam=[1], n=[1], k=[4, 5]) + grid(fam=[2], n=[1], k=[3, 4]) + grid(fam=[3], n=[1], k=[4]), "thorough": grid(fam=[1], n=[1], k=[4, 5, 6]) + grid(fam=[2], n=[1], k=[3, 4, 5]) + grid(fam=[3], n=[1], k=[4, 5]) + grid(fam=[1], n=[2], k=[4]) + grid(fam=[0], n=[1], k=[4])},
+         "params": {"quick": grid(fam=[4], n=[1], k=[3, 4]) + grid(fam=[1], n=[1], k=[4, 5]) + grid(fam=[2], n=[1], k=[3, 4]) + grid(fam=[3], n=[1], k=[4]), "thorough": grid(fam=[4], n=[1, 2], k=[4, 5]) + grid(fam=[1], n=[1], k=[4, 5, 6]) + grid(fam=[2], n=[1], k=[3, 4, 5]) + grid(fam=[3], n=[1], k=[4, 5]) + grid(fam=[1], n=[2], k=[4]) + grid(fam=[0], n=[1], k=[4])},
          "cover": ["update-delivered"]},
         {"name": "connector", "pkg": "internal/backend", "pkgname": "backend", "entry": "VerifC02Connector", "files": ["zz_verif_backend.go", "zz_verif_c02.go"],
          "with": ["verifdb", "state_export"],
